@@ -48,6 +48,7 @@ type schedState struct {
 	// per-client schedules: csched[i][k] = the ID of the client to run after
 	// client i's k-th storage call, or -1 to keep running. Decisions that belong
 	// to one client do not move when another client is removed (shrinking).
+	clock     int64 // logical time: bumped at every yield and at statement invoke/return
 	perClient bool
 	csched    [maxClients][]int32
 	ccur      [maxClients]int32
@@ -115,6 +116,7 @@ func schedYieldHook(site string) {
 		}
 	}
 	sched.hookYields++
+	sched.clock++
 	me := sched.turn
 	if me < 0 || me >= maxClients {
 		return
@@ -176,6 +178,7 @@ func schedReset(n int, schedule []int32, trace []int32) {
 	sched.switches = 0
 	sched.yields = 0
 	sched.active = true
+	sched.clock = 0
 	sched.perClient = false
 	for i := 0; i < maxClients; i++ {
 		sched.ccur[i] = 0
@@ -280,6 +283,7 @@ func schedWait(me int32) {
 //go:norace
 func schedYield(me int) {
 	sched.yields++
+	sched.clock++
 	next := schedChoose(int32(me), true)
 	if next != int32(me) {
 		sched.turn = next
@@ -357,3 +361,18 @@ func schedTorture(n, perClient int, schedule []int32) (ok bool, trHash uint64) {
 	}
 	return tortureCounter == int64(n*perClient), h
 }
+
+// schedTick advances the logical clock and returns it; called by the token
+// holder when a statement is invoked and when it returns, so that every
+// operation has a strict [invoke, return] interval on the global event order.
+//
+//go:norace
+func schedTick() int64 {
+	sched.clock++
+	return sched.clock
+}
+
+// schedCurrent returns the index of the client holding the token.
+//
+//go:norace
+func schedCurrent() int { return int(sched.turn) }
